@@ -4,6 +4,8 @@ import (
 	"fmt"
 	"go/ast"
 	"go/types"
+	"math/big"
+	"os"
 	"strings"
 
 	"golang.org/x/tools/go/ssa"
@@ -203,6 +205,40 @@ func (v *Verifier) specFunc(se *SpecEnv, name string, c *ast.CallExpr) (Value, b
 			}
 		}
 		return &AggV{out}, true
+	case "eqmod": // a == b modulo the contract's "modulo" hypotheses: a - b rewrites to 0 (a certificate of ideal membership)
+		a := se.specScalar(c.Args[0])
+		b := se.specScalar(c.Args[1])
+		rules := se.moduloRules()
+		// extra hypotheses given inline: eqmod(a, b, lead1, rest1, ...) (the guard of the clause must justify them)
+		if len(c.Args)%2 != 0 {
+			unsup("eqmod: extra rules come in pairs (monomial, replacement)")
+		}
+		for i := 2; i+1 < len(c.Args); i += 2 {
+			lead := F.asPoly(se.specScalar(c.Args[i]))
+			if len(lead) != 1 || lead[0].c.Cmp(big.NewInt(1)) != 0 || len(lead[0].atoms) == 0 {
+				unsup("eqmod: the left-hand side of an extra rule must be a monomial with coefficient 1")
+			}
+			rules = append(rules, modRule{lead: lead[0].atoms, rest: se.specScalar(c.Args[i+1])})
+		}
+		if os.Getenv("GCV_DEBUG_EQMOD") != "" {
+			d := F.Sub(a, b)
+			fmt.Fprintf(os.Stderr, "eqmod: diff op=%v nargs=%d rules=%d\n", d.Op, len(d.Args), len(rules))
+			for _, r := range rules {
+				fmt.Fprintf(os.Stderr, "  rule lead=%v rest=%v\n", r.lead, r.rest)
+			}
+		}
+		// conditional values (merged paths) are split first: each case is a polynomial
+		var split func(t *Term, depth int) *Term
+		split = func(t *Term, depth int) *Term {
+			c := firstIteCond(t)
+			if c == nil || depth > 8 {
+				return F.Eq(F.reduceMod(t, rules), F.I64(0))
+			}
+			yes := F.resolveItes(t, map[*Term]bool{c: true}, nil)
+			no := F.resolveItes(t, map[*Term]bool{F.Not(c): true}, nil)
+			return F.And(F.Imp(c, split(yes, depth+1)), F.Imp(F.Not(c), split(no, depth+1)))
+		}
+		return split(F.Sub(a, b), 0), true
 	case "qnorm": // norm of a coordinate vector in R[X]/(X^k - nr) down to R, k = 2 or 3
 		nr := se.rvalue(se.eval(c.Args[0])).(*Term)
 		a := specVec(se, c.Args[1])
@@ -319,4 +355,91 @@ func vecArgs(se *SpecEnv, c *ast.CallExpr) []*Term {
 		out[i] = t
 	}
 	return out
+}
+
+// ---------- hypotheses as rewrite rules (ring layer) ----------
+
+// A "modulo M = R" statement is a hypothesis M == R on the entry values, where M is a monomial with coefficient one.
+// eqmod(a, b) rewrites a - b with M -> R until no monomial is divisible by an M: reaching 0 exhibits
+// a - b = sum w_i (M_i - R_i), i.e. membership in the ideal of the hypotheses, which is valid in every commutative ring.
+type modRule struct {
+	lead []*Term
+	rest *Term
+}
+
+func (se *SpecEnv) specScalar(e ast.Expr) *Term {
+	v := se.rvalue(se.eval(e))
+	if p, isP := v.(*PtrV); isP && p.Obj != nil {
+		v = se.rvalue(se.deref(p))
+	}
+	t, ok := v.(*Term)
+	if !ok {
+		unsup("expected a scalar, got %T", v)
+	}
+	return t
+}
+
+func (se *SpecEnv) moduloRules() []modRule {
+	F := se.F()
+	var rules []modRule
+	saved := se.inOld
+	se.inOld = true
+	defer func() { se.inOld = saved }()
+	for _, m := range se.fr.c.Modulo {
+		le, err := parseSpec(m.Name)
+		if err != nil {
+			unsup("modulo %q: %v", m.Name, err)
+		}
+		lead := F.asPoly(se.specScalar(le.Parts[0]))
+		if len(lead) != 1 || lead[0].c.Cmp(big.NewInt(1)) != 0 || len(lead[0].atoms) == 0 {
+			unsup("modulo %q: the left-hand side must be a monomial with coefficient 1", m.Name)
+		}
+		rules = append(rules, modRule{lead: lead[0].atoms, rest: se.evalTerm(m.E)})
+	}
+	return rules
+}
+
+// monoDivide returns atoms / lead (multisets) when lead divides atoms.
+func monoDivide(atoms, lead []*Term) ([]*Term, bool) {
+	rest := append([]*Term(nil), atoms...)
+	for _, l := range lead {
+		found := false
+		for i, a := range rest {
+			if a == l {
+				rest = append(rest[:i], rest[i+1:]...)
+				found = true
+				break
+			}
+		}
+		if !found {
+			return nil, false
+		}
+	}
+	return rest, true
+}
+
+func (f *Factory) reduceMod(t *Term, rules []modRule) *Term {
+	for iter := 0; iter < 4000; iter++ {
+		changed := false
+		for _, m := range f.asPoly(t) {
+			for _, r := range rules {
+				q, ok := monoDivide(m.atoms, r.lead)
+				if !ok {
+					continue
+				}
+				cof := f.monoTerm(mono{m.c, q})
+				t = f.Add(f.Sub(t, f.monoTerm(m)), f.Mul(cof, r.rest))
+				changed = true
+				break
+			}
+			if changed {
+				break
+			}
+		}
+		if !changed {
+			return t
+		}
+	}
+	unsup("eqmod: rewriting did not terminate")
+	return t
 }
